@@ -1,4 +1,5 @@
 import Ysshra.Lemmas.Gensign
+import Ysshra.Lemmas.Gensign2
 /-
 C03 — provisioned credentials are usable, key-bound, ephemeral and non-destructive.
 -/
@@ -98,6 +99,201 @@ theorem c03_foreign_untouched (conf : Conf) (k : Key) (certs : List (Option Cert
           have h2 := adds_keeps k (lifetimeOf conf.validity) a1 tr1 certs x h1 hk
           cases hadd : addCerts.adds k (lifetimeOf conf.validity) a1 tr1 certs with
           | mk a2 r2 => obtain ⟨tr2, ok2⟩ := r2; rw [hadd] at h2; exact h2
+
+/-- what a successful `AddCertsToAgent` went through: the listing, a successful refresh over it,
+    successful adds -/
+theorem addCerts_ok_shape (conf : Conf) (k : Key) (certs : List (Option CertV)) (w : World)
+    (h : (addCerts conf k certs w).2.2 = true) :
+    ∃ a a1 tr1, (addCerts.removes a [.agentList true] a.idents) = (a1, tr1, true) ∧
+      (addCerts.adds k (lifetimeOf conf.validity) a1 tr1 certs).2.2 = true ∧
+      (addCerts conf k certs w).1.agent = (addCerts.adds k (lifetimeOf conf.validity) a1 tr1 certs).1 := by
+  unfold addCerts at h ⊢
+  cases hl : agentList w.agent with
+  | mk a r =>
+    cases r with
+    | none => rw [hl] at h; simp at h
+    | some ids =>
+      have hids : ids = a.idents := by
+        unfold agentList at hl; simp only [] at hl
+        split at hl
+        · simp at hl
+        · simp only [Prod.mk.injEq, Option.some.injEq] at hl; rw [← hl.2, ← hl.1]
+      subst hids
+      rw [hl] at h
+      simp only [] at h ⊢
+      cases hr : addCerts.removes a [.agentList true] a.idents with
+      | mk a1 r1 =>
+        obtain ⟨tr1, ok1⟩ := r1
+        rw [hr] at h
+        cases ok1 with
+        | false => simp at h
+        | true =>
+          simp only [] at h ⊢
+          refine ⟨a, a1, tr1, hr, ?_, ?_⟩
+          · cases hadd : addCerts.adds k (lifetimeOf conf.validity) a1 tr1 certs with
+            | mk a2 r2 => obtain ⟨tr2, ok2⟩ := r2; rw [hadd] at h; exact h
+          · cases hadd : addCerts.adds k (lifetimeOf conf.validity) a1 tr1 certs with
+            | mk a2 r2 => obtain ⟨tr2, ok2⟩ := r2; rfl
+
+/-- **After a successful run** the agent holds every certificate the CA returned for the new key,
+    each stored together with that private key (`key = k`), under the certificate label, with the
+    finite lifetime. -/
+theorem c03_success_stores (conf : Conf) (k : Key) (certs : List (Option CertV)) (w : World)
+    (h : (addCerts conf k certs w).2.2 = true) :
+    ∀ c, some c ∈ certs →
+      certRec k (lifetimeOf conf.validity) c ∈ (addCerts conf k certs w).1.agent.idents := by
+  obtain ⟨a, a1, tr1, _, hadd, hfin⟩ := addCerts_ok_shape conf k certs w h
+  intro c hc
+  rw [hfin]
+  exact adds_ok_present k _ a1 tr1 certs hadd c hc
+
+/-- **At most one generation**: after a successful run every identity that carries the handler's
+    label is a certificate of this run (those of earlier runs are gone). -/
+theorem c03_one_generation (conf : Conf) (k : Key) (certs : List (Option CertV)) (w : World)
+    (h : (addCerts conf k certs w).2.2 = true) :
+    ∀ y ∈ (addCerts conf k certs w).1.agent.idents, containsSub handlerName y.comment = true →
+      ∃ c, some c ∈ certs ∧ y = certRec k (lifetimeOf conf.validity) c := by
+  obtain ⟨a, a1, tr1, hrem, _, hfin⟩ := addCerts_ok_shape conf k certs w h
+  intro y hy hlab
+  rw [hfin] at hy
+  rcases adds_new k _ a1 tr1 certs y hy with hold | hnew
+  · -- it was there after the refresh: but the refresh left nothing labelled
+    have hnl := removes_ok_no_label a [.agentList true] (by rw [hrem])
+    rw [hrem] at hnl
+    have := hnl y hold
+    rw [this] at hlab; cases hlab
+  · exact hnew
+
+/-- A run of the regular handler that **fails before or during signing** — request generation
+    fails, or the CA fails or panics — removes nothing: every identity the agent held is still
+    there (only the new private key may have been added). -/
+theorem c03_failed_signing_keeps (conf : Conf) (p : Param) (w : World) (x : AIdent)
+    (hx : x ∈ w.agent.idents)
+    (hfresh : ∀ n, w.rng ≤ n → x.key ≠ .fresh n)
+    (hfail : (run conf p [.regular] w).2.2 ≠ .ok) (hnot : (run conf p [.regular] w).2.2 ≠ .err .agentOpCert) :
+    x ∈ (run conf p [.regular] w).1.agent.idents := by
+  revert hfail hnot
+  unfold run selectHandler authOf
+  have hra := regularAuth_trace conf p w
+  cases hauth : regularAuth conf p w with
+  | mk w1 r =>
+    obtain ⟨tr, res⟩ := r
+    rw [hauth] at hra
+    have hx1 : x ∈ w1.agent.idents := by rw [hra.2.1]; exact hx
+    cases res with
+    | some e =>
+      have : e = .handlerAuthN := regularAuth_err_kind conf p w e (by rw [hauth])
+      subst this
+      intro _ _
+      simpa [selectHandler] using hx1
+    | none =>
+      simp only []
+      -- generation adds the fresh private key and nothing else
+      have hgen : x ∈ (regularGenerate conf p w1).1.agent.idents := by
+        unfold regularGenerate
+        simp only []
+        have hk : ¬ (x.key = Key.fresh w1.rng ∧ x.cert = none) := fun e => hfresh w1.rng hra.2.2.2.2 e.1
+        have hkeep := agentAdd_keeps w1.agent ⟨.fresh w1.rng, none, privateKeyLabel, lifetimeOf conf.validity⟩ x hx1 hk
+        cases hadd : agentAdd w1.agent ⟨.fresh w1.rng, none, privateKeyLabel, lifetimeOf conf.validity⟩ with
+        | mk a ok =>
+          rw [hadd] at hkeep
+          cases ok
+          · exact hkeep
+          · simp only []; split <;> exact hkeep
+      cases hg : regularGenerate conf p w1 with
+      | mk w2 r2 =>
+        obtain ⟨tr2, res2⟩ := r2
+        rw [hg] at hgen
+        cases res2 with
+        | error e => intro _ _; exact hgen
+        | ok kc =>
+          obtain ⟨k, csr⟩ := kc
+          simp only []
+          -- the CA calls do not touch the agent
+          have hsa : ∀ (n : Nat) (w' : World), (signAll k n w').1.agent = w'.agent := by
+            intro n
+            induction n with
+            | zero => intro w'; rfl
+            | succ m ih =>
+              intro w'
+              unfold signAll
+              have hca : (caSign k w').1.agent = w'.agent := by
+                unfold caSign; split
+                · rfl
+                · split <;> rfl
+              cases hc : caSign k w' with
+              | mk wa ra =>
+                obtain ⟨tra, resa⟩ := ra
+                rw [hc] at hca
+                cases resa with
+                | error e => exact hca
+                | ok c1 =>
+                  simp only []
+                  have := ih wa
+                  cases hs : signAll k m wa with
+                  | mk wb rb =>
+                    obtain ⟨trb, resb⟩ := rb
+                    rw [hs] at this
+                    cases resb <;> (simp only []; rw [this, hca])
+          cases hsg : signAll k 1 w2 with
+          | mk w3 r3 =>
+            obtain ⟨tr3, res3⟩ := r3
+            have hag := hsa 1 w2
+            rw [hsg] at hag
+            cases res3 with
+            | error e => cases e <;> (intro _ _; simp only []; rw [hag]; exact hgen)
+            | ok certs =>
+              simp only []
+              cases hac : addCerts conf k certs w3 with
+              | mk w4 r4 =>
+                obtain ⟨tr4, ok4⟩ := r4
+                cases ok4 <;> (intro hfail hnot; simp at hfail hnot)
+
+/-- A successful run of the regular handler *is* a successful `AddCertsToAgent` for the key the
+    run generated and the certificates the CA returned for it — so `c03_success_stores` and
+    `c03_one_generation` describe the agent after the run. -/
+theorem c03_run_success (conf : Conf) (p : Param) (w : World) (h : (run conf p [.regular] w).2.2 = .ok) :
+    ∃ w1 w2 w3 k csr certs,
+      (regularGenerate conf p w1).2.2 = .ok (k, csr) ∧ (regularGenerate conf p w1).1 = w2 ∧
+      (signAll k 1 w2).2.2 = .ok certs ∧ (signAll k 1 w2).1 = w3 ∧
+      (addCerts conf k certs w3).2.2 = true ∧
+      (run conf p [.regular] w).1 = (addCerts conf k certs w3).1 := by
+  revert h
+  unfold run selectHandler authOf
+  cases hauth : regularAuth conf p w with
+  | mk w1 r =>
+    obtain ⟨tr, res⟩ := r
+    cases res with
+    | some e =>
+      have : e = .handlerAuthN := regularAuth_err_kind conf p w e (by rw [hauth])
+      subst this
+      intro h; simp [selectHandler] at h
+    | none =>
+      simp only []
+      cases hg : regularGenerate conf p w1 with
+      | mk w2 r2 =>
+        obtain ⟨tr2, res2⟩ := r2
+        cases res2 with
+        | error e => intro h; simp at h
+        | ok kc =>
+          obtain ⟨k, csr⟩ := kc
+          simp only []
+          cases hsg : signAll k 1 w2 with
+          | mk w3 r3 =>
+            obtain ⟨tr3, res3⟩ := r3
+            cases res3 with
+            | error e => cases e <;> (intro h; simp at h)
+            | ok certs =>
+              simp only []
+              cases hac : addCerts conf k certs w3 with
+              | mk w4 r4 =>
+                obtain ⟨tr4, ok4⟩ := r4
+                cases ok4 with
+                | false => intro h; simp at h
+                | true =>
+                  intro _
+                  refine ⟨w1, w2, w3, k, csr, certs, by rw [hg], by rw [hg], by rw [hsg], by rw [hsg], by rw [hac], ?_⟩
+                  rw [hac]
 
 /-- A run that fails before certificates are added — nobody authenticates — leaves every identity
     in place (in particular all certificates provisioned by earlier runs). -/
